@@ -322,8 +322,9 @@ def type_sets(ret, provs):
     types.discard(0)
     return types, structs, ifaces
 
-def render_decl(k, line, rng=None, name=None):
-    """Go source lines for declaration number k"""
+def render_decl(k, line, rng=None, name=None, shared=None):
+    """Go source lines for declaration number k (shared: list collecting declarations that go into another file of the
+    package, e.g. Set variables the Inject declaration refers to)"""
     ret, provs = parse_decl(line)
     name = name or "Init%d" % k
     T = lambda t: "context.Context" if t == 0 else "D%dT%d" % (k, t)
@@ -425,7 +426,13 @@ def render_decl(k, line, rng=None, name=None):
         if len(inner) >= 3 and rng.chance(0.4):
             inner = [inner[0], "kessoku.Set(%s)" % ", ".join(inner[1:])]
         if rng.chance(0.5):
-            pre.append("var D%dS0 = kessoku.Set(\n\t%s,\n)" % (k, ",\n\t".join(inner)))
+            # a package-level Set variable; sometimes it refers to a second Set variable, and sometimes both live in
+            # another file of the package
+            target = shared if (shared is not None and rng.chance(0.5)) else pre
+            if len(inner) >= 2 and rng.chance(0.4):
+                target.append("var D%dS1 = kessoku.Set(\n\t%s,\n)" % (k, ",\n\t".join(inner[1:])))
+                inner = [inner[0], "D%dS1" % k]
+            target.append("var D%dS0 = kessoku.Set(\n\t%s,\n)" % (k, ",\n\t".join(inner)))
             exprs = exprs[:a] + ["D%dS0" % k] + exprs[b + 1:]
         else:
             exprs = exprs[:a] + ["kessoku.Set(%s)" % ", ".join(inner)] + exprs[b + 1:]
@@ -459,6 +466,7 @@ class Module:
         open(os.path.join(self.root, "cmd", "run", "main.go"), "w").write(RUN_GO)
         self.files = []
         self.value_ids = {}
+        self.shared_sets = []
     def env(self):
         return {"GOFLAGS": "-mod=mod", "GOWORK": "off", "GOTOOLCHAIN": "go1.25.5"}
     def write_decls(self, decls, perfile=20, rng=None, start=0):
@@ -469,7 +477,7 @@ class Module:
         for fi in range(0, len(decls), perfile):
             src = ["package p", "", "import (", '\t"context"', '\t"e2e/rt"', '\t"github.com/mazrean/kessoku"', ")", "", "var _ context.Context", 'var _ = rt.Enter', ""]
             for k, line in decls[fi:fi + perfile]:
-                s, mk, vids = render_decl(k, line, rng)
+                s, mk, vids = render_decl(k, line, rng, shared=self.shared_sets)
                 self.value_ids[k] = vids
                 src += s + [""]
                 allmk += mk
@@ -477,6 +485,10 @@ class Module:
             fn = os.path.join(self.root, "p", "k%d.go" % (start + fi // perfile))
             open(fn, "w").write("\n".join(src) + "\n")
             files.append(fn)
+        if self.shared_sets:
+            # Set variables referred to from the Inject declarations of other files
+            body = ["package p", "", "import (", '\t"context"', '\t"e2e/rt"', '\t"github.com/mazrean/kessoku"', ")", "", "var _ context.Context", "var _ = rt.Enter", ""] + self.shared_sets
+            open(os.path.join(self.root, "p", "shared_sets.go"), "w").write("\n\n".join(body) + "\n")
         self.files += files
         self.names = getattr(self, "names", []) + names
         self.mk = getattr(self, "mk", []) + allmk
